@@ -162,6 +162,10 @@ def r3_traversal_agreement(ctx: Ctx) -> None:
         skipped, calls = _loop_info(lp)
         if not calls:
             raise AnalysisError(f"resolve_labels: pass {i} does not call pc_after")
+        leaves = [n for n in walk_no_nested(lp) if isinstance(n, (ast.Break, ast.Return)) and not any(n in ast.walk(inner) for inner in ast.walk(lp)
+                                                                                                  if inner is not lp and isinstance(inner, (ast.For, ast.While)))]
+        ctx.check(not leaves, f"resolve_labels:pass{i}:whole-list", "the pass visits every node: it is not left early (a `break` at the first skipped node leaves "
+                  "the symbols and deferred macro arguments after it unevaluated)", fact=True)
         # threaded address: previous_pc = node.pc_after(previous_pc)
         threaded = any(isinstance(s, ast.Assign) and isinstance(s.value, ast.Call) and (call_name(s.value) or "").endswith(".pc_after")
                        and [unparse(a) for a in s.value.args] == [unparse(s.targets[0])] for s in walk_no_nested(lp))
